@@ -462,7 +462,7 @@ func TestC08CasterFree(t *testing.T) {
 				sy[i] = append(sy[i], rapid.IntRange(0, 4).Draw(t, "sy"))
 			}
 		}
-		raceRounds := rapid.SampledFrom([]int{0, 0, 40, 150}).Draw(t, "raceRounds")
+		raceRounds := rapid.SampledFrom([]int{0, 60, 200, 400}).Draw(t, "raceRounds")
 		raceSpinR := rapid.IntRange(0, 12).Draw(t, "raceSpinR")
 		raceSpinS := rapid.IntRange(0, 12).Draw(t, "raceSpinS")
 		hookY := map[int]int{
@@ -583,8 +583,11 @@ func TestC08CasterFree(t *testing.T) {
 					}
 				}
 				wait := func(v int64) {
-					for phase.Load() != v {
-						runtime.Gosched()
+					// busy-wait (yielding only now and then): both parties leave the barrier within nanoseconds of each other
+					for n := 1; phase.Load() != v; n++ {
+						if n&0x3fff == 0 {
+							runtime.Gosched()
+						}
 					}
 				}
 				rwg.Add(2)
@@ -595,7 +598,7 @@ func TestC08CasterFree(t *testing.T) {
 						x.Add(1)
 						phase.Store(int64(3*i + 1))
 						wait(int64(3*i + 2))
-						spin(raceSpinR * (i % 4))
+						spin((raceSpinR + i*7) % 48) // the offsets sweep across the rounds
 						x.Add(-1)
 						wait(int64(3*i + 3))
 					}
@@ -606,7 +609,7 @@ func TestC08CasterFree(t *testing.T) {
 					for i := 0; i < raceRounds; i++ {
 						wait(int64(3*i + 1))
 						phase.Store(int64(3*i + 2))
-						spin(raceSpinS * (i % 3))
+						spin((raceSpinS + i*13) % 48)
 						if n := x.Send(-1 - i); n != 0 {
 							mu.Lock()
 							panics = append(panics, fmt.Sprintf("race lane round %d: Send returned %d although its only receiver deregistered without receiving", i, n))
